@@ -508,12 +508,17 @@ template <class T> static void check_unary_vec(pbt::Ctx& c) {
 		if (!(er <= 2 * (long double)std::numeric_limits<T>::epsilon())) FAILK(c, "mirrorRepeat/vec4", T, k, "lane %d: mirrorRepeat(%a)=%a, expected %.17Lg", i, (double)p, (double)wq[i], ex);
 	}
 	V px; for (int i = 0; i < 4; ++i) { T a = refc::fabs(fx[i]); px[i] = (long double)a < 2147483647.5L ? a : T(i) + T(0.5); }
-	glm::vec<4, int> ir = glm::iround(px); glm::vec<4, glm::uint> ur = glm::uround(px);
+	// uround's domain is wider (nearest integer representable in uint: x < 2^32 - 0.5): its own vector, one lane in four drawn from
+	// [2^31, 2^32) where a detour through int would saturate
+	V pu; for (int i = 0; i < 4; ++i) { T a = refc::fabs(fx[i]); pu[i] = (long double)a < 4294967295.5L ? a : T(i) + T(0.5); }
+	for (int i = 0; i < 4; ++i) if (c.draw(4) == 0) { T hi = (T)(2147483648.0 + (double)c.draw(1ULL << 31) + (sizeof(T) == 8 ? c.unit() : 0.0)); if ((long double)hi < 4294967295.5L) { pu[i] = hi; c.cls("uround-lane-above-2^31"); } }
+	glm::vec<4, int> ir = glm::iround(px); glm::vec<4, glm::uint> ur = glm::uround(pu);
 	for (int i = 0; i < 4; ++i) {
-		long double d1 = (long double)px[i] - (long double)ir[i], d2 = (long double)px[i] - (long double)ur[i]; if (d1 < 0) d1 = -d1; if (d2 < 0) d2 = -d2;
+		long double d1 = (long double)px[i] - (long double)ir[i], d2 = (long double)pu[i] - (long double)ur[i]; if (d1 < 0) d1 = -d1; if (d2 < 0) d2 = -d2;
 		const char* ik = px[i] == pred_half<T>() ? "x=0.5-ulp" : ((px[i] >= two_mant<T>() && px[i] < two_mant<T>() * 2 && !refc::iseven(px[i])) ? "odd-integer-2^mant..2^(mant+1)" : "other");
+		const char* uk = pu[i] == pred_half<T>() ? "x=0.5-ulp" : ((pu[i] >= two_mant<T>() && pu[i] < two_mant<T>() * 2 && !refc::iseven(pu[i])) ? "odd-integer-2^mant..2^(mant+1)" : (pu[i] >= T(2147483648.0) ? "x>=2^31" : "other"));
 		if (d1 > 0.5L) FAILK(c, "iround/vec4", T, ik, "lane %d: iround(%a)=%d", i, (double)px[i], ir[i]);
-		if (d2 > 0.5L) FAILK(c, "uround/vec4", T, ik, "lane %d: uround(%a)=%u", i, (double)px[i], ur[i]);
+		if (d2 > 0.5L) FAILK(c, "uround/vec4", T, uk, "lane %d: uround(%a)=%u", i, (double)pu[i], ur[i]);
 	}
 	if constexpr (sizeof(T) == 4) {
 		glm::ivec4 gi = glm::floatBitsToInt(x); glm::uvec4 gu = glm::floatBitsToUint(x);
